@@ -459,6 +459,62 @@ def check_open(ctx, fb):
               why or "expected 2 success paths, creation and rejection arms; found %d / %d / %d" % (len(oks), n_create, n_reject), loc(it))
 
 
+def check_constructor_config(ctx, fb):
+    """R16-8: the storage configuration a caller supplies reaches the tree. RLN::new builds the tree with
+    Config::from_str(json["tree_config"].to_string()) of the JSON it was given (documented key), new_with_params with
+    Config::from_str(the whole reader); Config::default() only when that string is empty. A configuration that is silently dropped
+    (wrong key, error turned into the default) puts the tree into a temporary database: nothing survives a reopen."""
+    for fn, src_param, key in (("rln::public::RLN::new", 2, "tree_config"), ("rln::public::RLN::new_with_params", 4, None)):
+        it = fb.need(fn)
+        ctx.touch(it)
+        eng = Engine(fb, inline=lambda i: False)
+        why = ""
+        n_cfg = n_def = 0
+        for p in eng.run(it):
+            if p.kind != "return":
+                continue
+            rv = eng.value_of(p.store, p.ret)
+            if not (rv[0] == "adt" and rv[2] == "Ok"):
+                continue
+            fields = dict(zip(rv[4][0][3], rv[4][0][4]))
+            t = fields.get("tree")
+            news = [x for x in subterms(t) if isinstance(x, tuple) and x and x[0] == "call" and re.search(r"ZerokitMerkleTree>::new$", x[1])] if t else []
+            if len(news) != 1 or news[0][2][0] != P(1):
+                why = "the tree is %s, specification PoseidonTree::new(tree_height, default leaf, configuration)" % sh(t, 120)
+                break
+            cfg = news[0][2][2]
+            text = ("call", None, None)
+            reader = ("upd", None)
+            raw = [x for x in subterms(cfg) if isinstance(x, tuple) and x and x[0] == "upd" and str(x[1]).endswith("read_to_end") and x[3][0] == P(src_param)]
+            empties = [(a, v) for a, v in p.conds() if a[0] == "b" and isinstance(a[1], tuple) and (a[1][0] == "is_empty" or (a[1][0] == "call" and a[1][1].endswith("::is_empty")))]
+            if cfg[0] == "call" and cfg[1].endswith("Default>::default"):
+                n_def += 1
+                if not (empties and empties[-1][1] is True and any(isinstance(x, tuple) and x and x[0] == "upd" and str(x[1]).endswith("read_to_end") and x[3][0] == P(src_param) for x in subterms(empties[-1][0]))):
+                    why = "the default configuration is used on a path where the caller's configuration text is not known to be empty"
+                    break
+                continue
+            fs = cfg[1] if cfg[0] == "unwrap" else None
+            if not (fs and fs[0] == "call" and fs[1].endswith("FromStr>::from_str") and raw):
+                why = "the tree's configuration is %s, specification Config::from_str(the caller's text)" % sh(cfg, 140)
+                break
+            n_cfg += 1
+            arg = fs[2][0]
+            if key is not None:
+                ks = [x[1] for x in subterms(arg) if isinstance(x, tuple) and len(x) == 2 and x[0] == "str"]
+                idx = [x for x in subterms(arg) if isinstance(x, tuple) and x and x[0] == "call" and re.search(r"Index<.*>::index$|Value::get$", x[1])]
+                if ks != [key] or len(idx) != 1:
+                    why = "the configuration is read from %s, documented key %r of the input JSON" % (ks or sh(arg, 80), key)
+                    break
+            else:
+                if any(isinstance(x, tuple) and x and x[0] == "call" and re.search(r"Index<.*>::index$", x[1]) for x in subterms(arg)):
+                    why = "new_with_params parses %s, specification the whole tree_config reader" % sh(arg, 100)
+                    break
+        if not why and (n_cfg < 1 or n_def < 1):
+            why = "expected a path with the caller's configuration and a path with the default (empty text); found %d / %d" % (n_cfg, n_def)
+        ctx.check(not why, "R16-8", "%s configuration" % fn.split("::")[-1], "tree built with Config::from_str(caller's %s), default only for an empty text" % (
+            "JSON[\"tree_config\"]" if key else "reader"), why, loc(it))
+
+
 def check_tree_replacement(ctx, fb):
     """R16-5: the instance keeps the storage it was configured with: a method that replaces RLN.tree must build the new tree from the
     instance's configuration; building it with ZerokitMerkleTree::default (a fresh temporary database) detaches every later update,
@@ -511,6 +567,7 @@ def run(ctx):
     check_config(ctx, fb)
     check_open(ctx, fb)
     check_tree_replacement(ctx, fb)
+    check_constructor_config(ctx, fb)
     # R16-7 (shared with C11 R11-1..R11-3): "storage failures are reported" to a C caller too: the wrappers of the tree mutators and
     # of flush return true exactly on the method's Ok and false on its Err
     from . import c11
